@@ -433,3 +433,49 @@ def b5(prog):
     if n < 1:
         raise Broken("no internal call with a null error pointer found (the rule's anchor, zw_value_dwarf_machine -> zw_machine_init, vanished)")
     return inst, findings
+
+
+def b6(prog):
+    """The error slot of the C API is output-only: `zw_error **out_err` need not point at an initialised pointer (the header's own example
+    passes the address of an uninitialised `zw_error *`).  In every library function that has such a parameter, `*out_err` may only be
+    assigned: it is never read, compared, passed on by value or destroyed."""
+    from zw import walk_nolambda
+    inst, findings = [], []
+    n = 0
+    for f in sorted(prog.funcs.values(), key=lambda f: f["fid"]):
+        if f.get("body") is None:
+            continue
+        rel = prog.rel(f.get("file", ""))
+        if not rel.startswith("libzwerg/"):
+            continue
+        ps = {p["id"]: p["n"] for p in f.get("params", []) if (p.get("t") or "").replace(" ", "") in ("zw_error**", "zw_error**const")}
+        if not ps:
+            continue
+        n += 1
+        key = "B6:" + f["q"]
+        bad = None
+
+        def is_deref_of_param(e):
+            while isinstance(e, dict) and e.get("k") in ("cast", "paren") and isinstance(e.get("e"), dict):
+                e = e["e"]
+            return isinstance(e, dict) and e.get("k") == "un" and e.get("op") == "*" and isinstance(e.get("e"), dict) and \
+                e["e"].get("k") in ("ref", "cast") and any(y.get("k") == "ref" and y.get("id") in ps for y in walk_nolambda(e["e"]))
+        assigned_nodes = set()
+        for x in walk_nolambda(f["body"]):
+            if x.get("k") == "asg" and x.get("op") == "=" and is_deref_of_param(x.get("lhs")):
+                assigned_nodes.add(id(x["lhs"]))
+                u = x["lhs"]
+                while isinstance(u, dict) and u.get("k") in ("cast", "paren"):
+                    u = u["e"]
+                assigned_nodes.add(id(u))
+        for x in walk_nolambda(f["body"]):
+            if is_deref_of_param(x) and id(x) not in assigned_nodes and x.get("k") == "un":
+                bad = bad or x.get("l") or f["l"]
+        inst.append((key, {"slot_parameters": len(ps)}))
+        if bad:
+            findings.append({"key": key, "where": "libzwerg/" + str(bad),
+                             "msg": "%s reads `*%s`: the error slot is output-only and may hold garbage or a pointer the client has already released when the call is made, "
+                                    "so the read (compare, destroy, pass on) acts on an invalid pointer" % (f["q"], list(ps.values())[0]), "detail": None})
+    if n < 3:
+        raise Broken("fewer functions with an error-slot parameter than confirmed by hand (3)")
+    return inst, findings
